@@ -428,3 +428,48 @@ def run_memcpysize(prog, ctx=None):
                 res.ob("%s:%s" % (f.qn, norm(show(e, f))), ok, f, e.get("l", 0),
                        "" if ok else "copies sizeof(%s)=%s bytes of an object of type %s (%s bytes)" % (ST.get("s"), ST.get("sz"), OT.get("s"), OT.get("sz")))
     return res
+
+
+def run_inlinecap(prog, ctx=None):
+    """INLINECAP: mpt_meta_new() keeps text shorter than its threshold K in the inline store; for every length 0..K-1 the inline
+    store's size function, abstractly evaluated with that constant, must accept it (result in [0,255])"""
+    res = Result("INLINECAP")
+    f = prog.func("mpt_meta_new", "mptcore/meta/meta_new.c")
+    g = prog.func("_mpt_geninfo_size")
+    if f is None or g is None:
+        raise Broken("anchor missing: mpt_meta_new / _mpt_geninfo_size")
+    # the branch that sends long text to the buffer store:  len >= K
+    K = None
+    lenvar = None
+    for bid, b in f.blocks.items():
+        if b.term and b.term.get("cond") is not None and b.term.get("cls") == "IfStmt":
+            c = strip(b.term["cond"], all_casts=True)
+            while c.get("k") == "bin" and c.get("op") in ("||", "&&"):
+                c = strip(c["a"], all_casts=True)
+            if c.get("k") == "bin" and c.get("op") in (">=", ">") and cval(c["b"]) is not None and strip(c["a"], all_casts=True).get("k") == "ref":
+                K = cval(c["b"]) + (1 if c["op"] == ">" else 0)
+                lenvar = strip(c["a"], all_casts=True)["d"]["n"]
+                extra = strip(b.term["cond"], all_casts=True)
+                break
+    if K is None or K > 4096:
+        raise Broken("mpt_meta_new: length threshold of the inline store not found")
+    # does the condition also consult the size function? then lengths it refuses go to the buffer store
+    consults = any(n.get("k") == "call" and callee_name(n) == "_mpt_geninfo_size" for n in walk(extra))
+    bad = []
+    for L in range(0, K):
+        an = Analysis(prog, g)
+        st = an.entry_state()
+        st[("v", g.params[0]["id"])] = AV(L + 1, L + 1)
+        an.run(state=st)
+        r = None
+        for (bid, idx), pre in an.pre.items():
+            el = g.blocks[bid].el[idx]
+            if el.get("k") == "ret" and el.get("e") is not None:
+                r = join(r, an.val(bid, idx, el["e"]))
+        if r is None or r.lo < 0 or r.hi > 255:
+            bad.append((L, r))
+    ok = not bad or consults
+    res.ob("mpt_meta_new:inline store accepts lengths below %d" % K, ok, f, f.line,
+           "" if ok else "text of %d..%d bytes is kept inline (%s < %d) but _mpt_geninfo_size(%s + 1) refuses it (%s): such values cannot be stored at all" % (
+               bad[0][0], bad[-1][0], lenvar, K, lenvar, bad[0][1]), {"threshold": K, "refused": [b[0] for b in bad][:8]})
+    return res
